@@ -598,8 +598,9 @@ pub(super) fn add(
         let lhs = operand_load(block, &instruction.operands()[1], bits)?;
         let rhs = operand_load(block, &instruction.operands()[2], bits)?;
 
-        // perform operation
-        let src = il::Expression::add(lhs, rhs).unwrap();
+        // perform operation; operand widths differ for forms we do not lift
+        // (e.g. SVE `add z0.h, z0.h, #imm`)
+        let src = il::Expression::add(lhs, rhs).map_err(|_| unsupported())?;
 
         // store result
         operand_store(block, &instruction.operands()[0], src)?;
@@ -1402,8 +1403,9 @@ pub(super) fn sub(
         let lhs = operand_load(block, &instruction.operands()[1], bits)?;
         let rhs = operand_load(block, &instruction.operands()[2], bits)?;
 
-        // perform operation
-        let src = il::Expression::sub(lhs, rhs).unwrap();
+        // perform operation; operand widths differ for forms we do not lift
+        // (e.g. SVE `sub z0.h, z0.h, #imm`)
+        let src = il::Expression::sub(lhs, rhs).map_err(|_| unsupported())?;
 
         // store result
         operand_store(block, &instruction.operands()[0], src)?;
